@@ -49,7 +49,9 @@ def gen_session(rng):
     forms = g.toplevel(rng.randrange(3, 8))
     extra = ['(display "(")', '(display ")")', '(display "a;b")', "(display #\\()", "(display (list #\\) #\;))", '(display "x")(newline)',
              '(display "ab\ncd")', '(list "(\n" 1)', '(if (string? "p\nq)") 5 0)', "(quote |x\ny|)", '(define ml "one\ntwo")',
-             "'|a(b|", '"str(ing"', "(car '())", "(undefined-zz)", "(vector-ref (vector 1) 5)", "(+ 1 2) ; comment (", "(list 1 (quote (2 . 3)) #(4))"]
+             "'|a(b|", '"str(ing"', "(car '())", "(undefined-zz)", "(vector-ref (vector 1) 5)", "(+ 1 2) ; comment (", "(list 1 (quote (2 . 3)) #(4))",
+             # forms rejected before evaluation: what stands before them in the same submission has already been evaluated
+             "(if)", "(lambda)", "(let ((x)) x)", ")", "(if)", ")"]
     for _ in range(rng.randrange(1, 5)):
         forms.insert(rng.randrange(len(forms) + 1), rng.choice(extra))
     return forms
